@@ -162,7 +162,7 @@ pub fn scratch_dir(tag: &str) -> std::path::PathBuf {
 }
 
 pub fn gen_cfg(r: &mut Sm, case: u64) -> RunCfg {
-    RunCfg { preset: (case % 3) as u8, dim: 2 + r.below(4) as usize, num_tune: 0, num_draws: 0, num_chains: 1 + r.below(3) as usize, chain: 0, fault_period: if case % 2 == 0 { 11 + r.below(20) } else { 0 }, seed: r.next(), store_divergences: r.coin(), store_mass_matrix: r.coin() }
+    RunCfg { preset: (case % 3) as u8, dim: if case % 3 == 2 { 2 + r.below(4) as usize } else { 1 + r.below(5) as usize }, num_tune: 0, num_draws: 0, num_chains: 1 + r.below(3) as usize, chain: 0, fault_period: if case % 2 == 0 { 11 + r.below(20) } else { 0 }, seed: r.next(), store_divergences: r.coin(), store_mass_matrix: r.coin() }
 }
 
 // ---------------------------------------------------------------------------------- Arrow reader
